@@ -124,6 +124,11 @@ def gen_cases(tier, seed):
     # ... and the same object after Curve.reverse() / Surface.transpose() (methods; the views were read before)
     extra += [dict(c, after_method='reverse' if c['shape']['pdim'] == 1 else 'transpose') for c in cases
               if c['shape']['pdim'] <= 2 and c['shape'].get('normalize_kv', True) and not c.get('unclamped')][::(9 if q else 4)]
+    # ... and after a knot-vector assignment on objects whose sampled points were read (normalised or kept ranges)
+    extra += [dict(c, after_method='knotvector_edit') for c in cases
+              if any(len(kv) > 2 * (p + 1) for kv, p in zip(c['shape']['kvs'], c['shape']['degrees']))
+              and not c.get('unclamped') and c['shape'].get('variety') != 'tiny_span'][::(11 if q else 5)]
+    extra += [dict(shape=d, after_method='knotvector_edit') for d in K.nonnormalised_shapes(tier)[::2]]
     return cases + extra
 
 
@@ -243,10 +248,28 @@ def run_case(case, ctx):
         _ = (src.ctrlpts, src.bbox, src.weights, src.evalpts)
     if case.get('after_method'):
         # the judged object went through a structural method (Curve.reverse / Surface.transpose) after its views were read
+        first = (5,) if pd == 1 else ((5, 4) if pd == 2 else (2, 3, 4))       # (each is one of the grids judged below)
+        if pd == 1:
+            obj.sample_size = first[0]
+        else:
+            for nm_, n_ in zip('uvw'[:pd], first):
+                setattr(obj, 'sample_size_' + nm_, n_)
         _ = (obj.ctrlpts, obj.bbox, obj.evalpts)
         if desc['rational']:
             _ = obj.weights
-        getattr(obj, case['after_method'])()
+        if case['after_method'] == 'knotvector_edit':
+            # another valid knot vector of the same length is assigned through the setter(s): the sampled points have to follow
+            def moved(kv):
+                # same range, same multiplicities, interior knots moved (not an affine image: the shape really changes)
+                lo_, hi_ = kv[0], kv[-1]
+                return [lo_ + (hi_ - lo_) * ((k - lo_) / (hi_ - lo_)) ** 2 for k in kv]
+            if pd == 1:
+                obj.knotvector = moved(list(obj.knotvector))
+            else:
+                for a_, nm_ in enumerate('uvw'[:pd]):
+                    setattr(obj, 'knotvector_' + nm_, moved(list(obj.knotvector[a_])))
+        else:
+            getattr(obj, case['after_method'])()
     model = R.def_from_obj(obj)
     degs = model['degrees']
     U_pts = _unweighted(model)
@@ -393,15 +416,21 @@ def _grid(case, ctx, obj, model, U_pts, feats, eps, maxP, triples, clamped):
     if case.get('sample_sizes') is not None:
         combos = [tuple(c) if isinstance(c, (list, tuple)) else (c,) for c in case['sample_sizes']]
     doms = [R.domain(p, U) for p, U in zip(model['degrees'], model['kvs'])]
+    cur0 = (obj.sample_size,) if pd == 1 else tuple(getattr(obj, 'sample_size_' + nm) for nm in 'uvw'[:pd])
+    combos = sorted(combos, key=lambda c: tuple(c) != tuple(cur0))      # the grid the object already has comes first (stable)
     for ns in combos:
         rc = dict(case, parts=['grid'], sample_sizes=[list(ns)])
         f = dict(feats, sample=list(ns))
-        if pd == 1:
-            obj.sample_size = ns[0]
-        elif pd == 2:
-            obj.sample_size_u, obj.sample_size_v = ns
-        else:
-            obj.sample_size_u, obj.sample_size_v, obj.sample_size_w = ns
+        # (the sampling density is only assigned when it differs: an assignment drops the sampled points, and the first grid of
+        # an object that was edited after its points had been read must be the one the object hands out by itself)
+        cur = (obj.sample_size,) if pd == 1 else tuple(getattr(obj, 'sample_size_' + nm) for nm in 'uvw'[:pd])
+        if tuple(cur) != tuple(ns):
+            if pd == 1:
+                obj.sample_size = ns[0]
+            elif pd == 2:
+                obj.sample_size_u, obj.sample_size_v = ns
+            else:
+                obj.sample_size_u, obj.sample_size_v, obj.sample_size_w = ns
         try:
             ep = obj.evalpts
         except Exception as e:  # noqa - reported, not swallowed
